@@ -249,7 +249,7 @@ def workload(rng, k):
 
 
 
-def confirm_hang(ctx, req, has_hang, timeout_s=75):
+def confirm_hang(ctx, req, has_hang, timeout_s=45):
     """A hang is reported only if it is reproducible: the same request is run once more, alone, with a longer timeout
     (a genuine deadlock is deterministic for a given fault plan; a stall on a loaded machine is not). At most three
     confirmations per run: later hanging cases of a run are neither re-run nor reported (one replay per class suffices)."""
